@@ -111,10 +111,10 @@ def run_history(uni, hist, sizes, dbpath, stats, bad):
                     affected = True
                     bad.append(('shared-transaction-across-stored-blocks',
                                 "block %s comes back without %d transaction(s) that an earlier-written stored block also "
-                                "contains" % ('/'.join(n.path), lost), hist, sizes))
+                                "contains" % ('/'.join(map(str, n.path)), lost), hist, sizes))
                 else:
                     bad.append(('block-differs', "block %s read back differs from what was written (%d vs %d transactions)" % (
-                        '/'.join(n.path), len(b.transactions), len(n.block.transactions)), hist, sizes))
+                        '/'.join(map(str, n.path)), len(b.transactions), len(n.block.transactions)), hist, sizes))
                     affected = True
         missing = [exp[i] for i in exp if i not in seen_ids]
         if missing and all(all(tx_first_block[enc.txid(t)] != n.bid for t in n.block.transactions) for n in missing) \
@@ -124,7 +124,7 @@ def run_history(uni, hist, sizes, dbpath, stats, bad):
             affected = True
             bad.append(('shared-transaction-across-stored-blocks',
                         "block %s is not returned at all: every transaction in it is also contained in an earlier-written "
-                        "stored block" % ('/'.join(missing[0].path),), hist, sizes))
+                        "stored block" % ('/'.join(map(str, missing[0].path)),), hist, sizes))
         elif sorted(seen_ids) != sorted(exp.keys()):
             bad.append(('block-set-differs', "store returns %d blocks, %d were flushed (duplicates or losses)" % (
                 len(seen_ids), len(exp)), hist, sizes))
@@ -156,8 +156,40 @@ def run_history(uni, hist, sizes, dbpath, stats, bad):
     st.close()
 
 
+def sweep_payload(parent, label):
+    kind, n = label
+    if kind == 'r':      # reward data of every admissible length
+        return [], world.K[4], 120, {'cb_data': bytes([0x78]) * n}
+    raise KeyError(label)
+
+
+def _sweep_worker(_):
+    """field-domain sweep: a linear chain whose blocks carry reward data of every length 0..200, written under three
+    batchings"""
+    ledger.setup()
+    uni = world.Universe(world.genesis_node(), sweep_payload, {'pow_ok': None})
+    hist = []
+    p = ()
+    for n in range(0, 201):
+        p = p + (('r', n),)
+        hist.append(p)
+    stats = {'flushes': 0, 'reloads': 0, 'blocks_compared': 0, 'state_checks': 0, 'state_checks_skipped': 0, 'runs': 0}
+    bad = []
+    dbpath = os.path.join(os.getcwd(), 'c08-sweep.db')
+    for sizes in ([201], [67, 67, 67], [1, 200]):
+        stats['runs'] += 1
+        run_history(uni, tuple(hist), sizes, dbpath, stats, bad)
+        if bad:
+            break
+    if os.path.exists(dbpath):
+        os.remove(dbpath)
+    return stats, [(k, w + ' [reward-data length sweep]', (), s) for k, w, h, s in bad[:3]], len(bad)
+
+
 def _worker(arg):
     hists, wid = arg
+    if hists == 'sweep':
+        return _sweep_worker(None)
     ledger.setup()
     uni = universe()
     stats = {'flushes': 0, 'reloads': 0, 'blocks_compared': 0, 'state_checks': 0, 'state_checks_skipped': 0, 'runs': 0}
@@ -194,7 +226,7 @@ def run(ctx):
         import random
         random.Random(ctx.seed).shuffle(hists)
     n = max(1, min(len(hists), ctx.ncpu * 4))
-    res = ctx.pmap(_worker, [(hists[i::n], i) for i in range(n)])
+    res = ctx.pmap(_worker, [('sweep', -1)] + [(hists[i::n], i) for i in range(n)])
     tot = {}
     for st, bad, nbad in res:
         for k, v in st.items():
@@ -213,7 +245,7 @@ def run(ctx):
         'rule': "histories = BFS over block trees (payload menu with forks including the same transaction / spending the same "
                 "output differently / multi-input multi-output), %d blocks beyond a 2-block prefix; each history under every "
                 "composition into flush batches; after every flush a restart and comparison of every block (bytes, order) and "
-                "of the rebuilt ledger state" % depth,
+                "of the rebuilt ledger state; plus a 201-block chain carrying reward data of every length 0..200" % depth,
     })
     ctx.assumptions.append("fidelity of acknowledged flushes with a clean shutdown; crash consistency of SQLite (journal_mode="
                            "MEMORY, synchronous=OFF) is not what the property asks")
@@ -233,6 +265,9 @@ def _has_shared(uni, hist):
 def replay(data, ctx):
     from skepticoin import blockstore
     ledger.setup()
+    if not data['hist']:
+        st, bad, n = _sweep_worker(None)
+        return [(k, w) for k, w, _, _ in bad]
     uni = universe()
     hist = tuple(tuple(p) for p in data['hist'])
     stats = {'flushes': 0, 'reloads': 0, 'blocks_compared': 0, 'state_checks': 0, 'state_checks_skipped': 0, 'runs': 0}
